@@ -256,6 +256,10 @@ def run_check(prop, spec, tier, seed):
     cov["trusted_base"] = spec.get("trusted_base", []) + [
         "Lean 4.33.0 kernel; axioms used per theorem listed under axioms_per_theorem (subset of propext, Classical.choice, Quot.sound)",
         "correspondence harness (/verif/go/harness, /verif/lean/Driver, /verif/checklib) ties the hand-written model to /repo on the inputs run"]
+    if any("Generated/" in p for p in lean.get("sources", [])):
+        cov["trusted_base"].append("the fact extractor /verif/go/extract (go/ast, purely syntactic): the tables and control-flow skeletons in Ebu/Generated are regenerated "
+                                   "from /repo on this run (files deleted first) and the obligations over them are decided by the kernel; the extractor reports statements "
+                                   "in source order with the printed callee / condition text, it does not follow data flow or renamed locals")
     cov["lean_sources_audited"] = lean.get("sources", [])
     cov["theorems"] = lean["theorems"]
     cov["axioms_per_theorem"] = lean["axioms"]
